@@ -27,7 +27,8 @@ CLAIMS = {
         text="Theorems C02.chars_chunking and bytes_chunking: feeding any partition into consecutive chunks (empty ones included, cuts inside a UTF-8 character or an escape sequence, both modes) "
              "gives the same decoder state, recogniser state and listener calls as one feed of the concatenation; screen_chunking lifts it to the screen. That the real feed()s carry no other state "
              "is decided on the implementation: model-free runs feed the same stream whole, byte/char-at-a-time, randomly re-chunked and at every 2-way split and compare the complete observable state, "
-             "incl. the seven captured sessions; the lockstep event comparison covers chunked feeds as well.",
+             "incl. the seven captured sessions, every generated session of the property and every session the coverage-guided search proposes. The verdict of this property on the implementation rests on "
+             "that relation alone (an event mismatch with the model is the recogniser's or the decoder's business - C03, C11 - unless the relation fails).",
         technique=TECH + "; model-free re-chunking runs", design="7 (C02)"),
     "C03": dict(
         text="Theorems over the defunctionalised recogniser, on the regenerated constants: text_ground, c0_ground, esc_final / esc_unknown_final / esc_hash / esc_percent / esc_charset, introducers, "
@@ -36,7 +37,8 @@ CLAIMS = {
              "End to end (Props/Grammar/C03.lean over Proofs/Grammar.lean): the documented grammar is written as a relation Grammar.Unit between a complete unit of input (text character, C0 control, ESC / ESC # / ESC % / "
              "ESC ( ) sequence, CSI sequence with any body and either introducer - completed, aborted by CAN/SUB or `$`+1 -, OSC string) and its listener events, with no reference to recogniser states; "
              "feed_decomposes: EVERY input string is a sequence of such units followed by an incomplete one, the recogniser's events are exactly those units' events in order, and it is in the ground state exactly when "
-             "nothing is incomplete; unit_sound / units_sound / grammar_spec: conversely any reading of an input as units yields the recogniser's events. "
+             "nothing is incomplete; unit_sound / units_sound / grammar_spec: conversely any reading of an input as units yields the recogniser's events; "
+             "unit_mid / unit_prefix_free / reading_unique: the recogniser is never in its ground state strictly inside a unit, so no unit is a proper prefix of another and the reading is unique. "
              "Dispatch.C03.private_argument_probes: the `private` argument ED / EL / DA receive from the compiled crate is Some(true) exactly for sequences marked with `?`. Dispatch.C03.dispatch_probes: the model's csi / escape / basic dispatch agree with what the compiled crate's dispatch functions call for every probed final, parameter-list shape and private flag "
              "(regenerated and re-decided by the kernel on every run). The tie of the recogniser is the lockstep comparison of the listener calls of the shipping parser with the model's, chunk by chunk, "
              "over generated, garbled, respelled and enumerated strings.",
@@ -106,14 +108,17 @@ CLAIMS = {
              "Also C11.decode_one / decode_wellformed / decode_wellformed_chunked (every scalar value's UTF-8 encoding decodes to exactly that code point, for every string and every chunking), "
              "invalid_lead, incomplete_held, maximal_subpart (one U+FFFD, the offending byte is reprocessed), dok_step (at most 3 bytes pending), eightbit, switch_to_8bit (pending tail dropped), "
              "switch_to_utf8, other_codes_ignored, plus C02.bytes_chunking. The decoder is encoding_rs's: the model is tied to it by the lockstep runs on byte sessions and by the "
-             "String::from_utf8_lossy oracle of the metamorphic runs.",
+             "String::from_utf8_lossy oracle of the metamorphic runs. On the implementation the question is also asked without any model: every feed of every byte session goes, next to ByteParser, through a "
+             "reference streaming decoder kept by the harness (WHATWG algorithm) into the crate's own character recogniser, and the two event sequences must be equal (DECODE findings) - "
+             "whatever the recogniser does with characters it does on both sides, so only the decoding can make them differ.",
         technique=TECH + "; from_utf8_lossy oracle", design="7 (C11)",
         note="The decoder itself is a dependency (encoding_rs): the theorems are about the state-machine model of it, tied by lockstep."),
     "C12": dict(
         text="Theorems C12.sm_membership / rm_membership (exactly the listed numbers, private ones as 32n), sm_other / rm_other (a list without DECSCNM/DECCOLM/DECOM/DECTCEM changes "
              "only membership - for every number), sm/rm_dectcem, sm/rm_decom (homing), sm/rm_decscnm (every cell, current and default rendition, all rows dirty), "
              "sm/rm_deccolm (132 columns / saved width back, erased with the current rendition, home), C12_holds for the executable predicate; sparse_setMode / sparse_resetMode: flipping the cells that exist in the "
-             "HashMap while absent ones follow through default_char() is the dense `every cell`. propC12 is evaluated on every SM/RM transition of the crate.",
+             "HashMap while absent ones follow through default_char() is the dense `every cell`; sgr_reset_is_mode (what a reset inside an SGR list resets to carries the mode's reverse flag). "
+             "propC12 is evaluated on every SM/RM transition of the crate, and its clause propRev (reverse flag after an SGR list whose documented outcome depends on the default rendition) on every SGR transition.",
         technique=TECH, design="7 (C12)",
         note="'Previous width' is read as the width at the last SM ?3 (the code overwrites the saved width on a repeated SM; DESIGN R8 revised)."),
     "C14": dict(
